@@ -139,6 +139,7 @@ type uciWorld struct {
 	stackBuf    []byte
 	needInspect bool
 	stuck       bool
+	quitSent    bool
 	autoGrant   bool // every write is granted at once (C08 driver twins)
 	twinOf      *uciWorld
 	readyokOwed int // isready lines handed to the reader minus readyok lines seen at the writer
@@ -559,7 +560,11 @@ func (w *uciWorld) guiWrite(data string) {
 		if i < 0 {
 			break
 		}
-		w.ev("IN", strings.TrimRight(rest[:i], "\r"), 0)
+		line := strings.TrimRight(rest[:i], "\r")
+		w.ev("IN", line, 0)
+		if firstToken(line) == "quit" {
+			w.quitSent = true
+		}
 		rest = rest[i+1:]
 	}
 	w.partial = rest
@@ -722,6 +727,26 @@ func (w *uciWorld) drain(toEnd bool) {
 	w.ev("DRAIN-GIVEUP", "iteration bound", 0)
 }
 
+// drainNoTime grants writes and lets the search run until nothing can move
+// any more, without letting simulated time pass.
+func (w *uciWorld) drainNoTime() {
+	budget := 400_000
+	for iter := 0; iter < 100_000 && budget > 0; iter++ {
+		w.settle()
+		switch {
+		case w.finished:
+			return
+		case w.hasPend:
+			w.apply(UStep{Op: "grant"})
+		case w.parked && !(w.hazard && w.hasPend):
+			w.apply(UStep{Op: "run", Polls: 2000})
+			budget -= 2000
+		default:
+			return
+		}
+	}
+}
+
 // chooser produces the next step given the world (generator) or replays a
 // recorded list.
 type chooser interface {
@@ -802,6 +827,14 @@ func (w *uciWorld) play(ch chooser) {
 func (w *uciWorld) finish(leakCheck bool) *UCIOutcome {
 	out := w.out
 	w.settle()
+	if w.quitSent && !w.eofQueued {
+		// quit must end the driver by itself: the GUI keeps the pipe open and
+		// reads what the engine still writes; only then does it close its end
+		w.drainNoTime()
+		if !w.finished {
+			w.ev("QUIT-IGNORED", "", 0)
+		}
+	}
 	if !w.eofQueued {
 		w.apply(UStep{Op: "eof"})
 		out.Steps = append(out.Steps, UStep{Op: "eof"})
